@@ -15,6 +15,8 @@ pub struct ObsLeaf {
     pub named: Option<String>,
     pub suggestion: Option<String>,
     pub diag_msg: String,
+    pub diag_span: Option<R>,
+    pub has_diag: bool,
 }
 
 pub enum Observed {
@@ -75,6 +77,8 @@ pub fn parse_leaf(l: &Value, diag: Option<&Value>) -> ObsLeaf {
         family,
         suggestion,
         diag_msg: diag.and_then(|d| d["msg"].as_str()).unwrap_or("").to_string(),
+        diag_span: diag.and_then(|d| d["span"].as_array()).and_then(|a| Some((a.first()?.as_i64()?, a.get(1)?.as_i64()?))).filter(|(a, b)| *a >= 0 && *b >= 0).map(|(a, b)| (a as usize, b as usize)),
+        has_diag: diag.is_some(),
     }
 }
 
@@ -239,6 +243,14 @@ pub fn judge(expected: &Outcome, observed: &Observed, ranges: &Ranges, attr_rang
                 if !used[oi] {
                     let dup = want.iter().any(|e| compatible(o, e));
                     add("C02", format!("{}:{}", if dup { "duplicated" } else { "invented" }, o.family), format!("leaf {:?} corresponds to no mistake of the input (expected {:?})", o.msg, want.iter().map(|l| (&l.kind, &l.name, &l.path)).collect::<Vec<_>>()));
+                }
+            }
+            // conversion to compiler diagnostics keeps every leaf's span and message
+            for o in leaves.iter() {
+                if !o.has_diag {
+                    add("C04", "diagnostic-missing".into(), format!("leaf {:?} has no compiler diagnostic", o.msg));
+                } else if o.diag_span != o.span {
+                    add("C03", "diagnostic-span-differs".into(), format!("leaf {:?} has span {:?} but its compiler diagnostic is at {:?}", o.msg, o.span, o.diag_span));
                 }
             }
             // spans
